@@ -1,7 +1,7 @@
 (* C17 — Settings contexts are properly scoped and never leak.
    Only theorem statements live here; each is closed by `exact`/`apply` of a lemma proved in
    Generic.v / Laws.v about the model GENERATED from linear_operator/settings.py. *)
-From Coq Require Import List ZArith Bool.
+From Coq Require Import List ZArith Bool Permutation.
 Import ListNotations.
 Require Import C17.Generic C17.gen.Settings C17.Laws.
 
@@ -43,20 +43,48 @@ Theorem C17_exit_restores : forall c sv o sv1 o1,
   penter c sv o = Some (sv1, o1) -> pexit c sv1 o1 = Some (sv, o).
 Proof. exact restore_law. Qed.
 
-(* composite contexts exit exactly the parts they enter, in the same order *)
+(* FINITE TABLE (regenerated from the source): every composite context enters each of its parts exactly once and
+   exits each of its parts exactly once (the order lists are permutations of the parts) *)
 Theorem C17_composite_orders : orders_ok = true.
 Proof. exact orders_ok_true. Qed.
+
+(* ... and the order is irrelevant: the parts of a composite belong to pairwise different classes, and walking
+   (entering or exiting, f arbitrary) any permutation of such parts yields the same store and the same objects.
+   Hence the model, which exits the parts in the order in which they were entered, covers whatever order the
+   source uses. *)
+Theorem C17_part_order_irrelevant : forall f ps ps', Permutation ps ps' -> NoDup (map fst ps) ->
+  forall g g1 r, walk cid gs get set f ps g = Some (g1, r) ->
+  exists r', walk cid gs get set f ps' g = Some (g1, r') /\ Permutation r r'.
+Proof. exact (walk_perm cid gs get set get_set_neq set_comm). Qed.
+
+(* the observers cls.on()/off()/value()/value(dtype) report exactly the slots of their own kind: a dtype slot is
+   never reported for another dtype, off() = not on(), an unset flag reports its default *)
+Theorem C17_observers : forall c sv, observe c sv = spec_observe (kind_of c) (default_on c) sv.
+Proof. exact observer_law. Qed.
+
+(* FINITE TABLE (regenerated from the source, decided by computation): a class that carries a cache attribute
+   (deterministic_probes.probe_vectors) resets it to None on every path of __enter__ and of __exit__, so probe
+   vectors drawn under one state of the flag are never seen under another *)
+Theorem C17_cache_reset : caches_ok = true.
+Proof. exact caches_ok_true. Qed.
 
 (* a composite constructs exactly the part contexts its documentation promises (spec_composite_args,
    hand-written in Laws.v), each from the promised argument — so that, with C17_takes_effect, entering
    it puts those values in force: fast_computations(covar_root_decomposition, log_prob, solves) hands
    flag i to part i; linalg_dtypes(default, symeig, cholesky) hands `symeig or default` to the symeig
-   part and `cholesky or default` to the cholesky part *)
+   part and `cholesky or default` to the cholesky part.  args_ok: the arguments of linalg_dtypes are torch dtypes or
+   None (a dtype is never falsy, so `x or default` and `default if x is None else x` coincide on them) *)
 Theorem C17_composite_args : forall k args g ps parts,
+  args_ok k args = true ->
   spec_composite_args k args = Some parts -> new k args g = Some ps ->
   map fst ps = map fst parts /\
   Forall2 (fun p q => pinit (fst q) (snd q) (get (fst q) g) = Some (snd p)) ps parts.
 Proof. exact composite_args_law. Qed.
+
+(* the hypothesis args_ok of C17_composite_args (linalg_dtypes is given dtypes or None) is satisfiable *)
+Example C17_args_ok_sat : args_ok k_linalg_dtypes [VTok 1; VNone; VTok 16] = true /\
+                          args_ok k_fast_computations [VBool true; VBool false; VBool true] = true.
+Proof. split; reflexivity. Qed.
 
 (* non-vacuity: a concrete nested, interleaved history with re-use and a context created before
    another one is entered runs without error on the generated model and is well nested *)
